@@ -50,7 +50,17 @@ R_PAL = [
     ('R3.info', r'(?<![\w>.])_info\.', 'self->_info.', True),
     ('L.pal', r'for\( int i = 0; i < entries; \+\+i \)', 'for( int i = 0; i < entries; ++i )\nPAL_LOOP_CONTRACT', True),
 ]
-X_RLE = [X('rle', BMP, r'void read_palette_image_rle\( const View_Dst& view \)', count=1, rules=R_RLE),
+BMS = 'boost/gil/extension/io/bmp/detail/scanline_read.hpp'
+R_SLPAL = [
+    ('R14.resize', r'this->_palette\.resize\(\s*(.*?)\s*,\s*rgba8_pixel_t\(0,0,0,0\)\s*\);', r'PAL_RESIZE(\1);', True),
+    ('R14.pal_write', r'get_color\( this->_palette\[i\], \w+_t\(\)\s*\) = this->_io_dev\.read_uint8\(\);', 'PAL_WRITE(i, DEV_read_uint8());', True),
+    ('R11.read8', r'this->_io_dev\.read_uint8\(\)', 'DEV_read_uint8()', True),
+    ('R14.size', r'this->_palette\.size\(\)', 'g_pal_n', True),
+    ('R8.win32', r'bmp_header_size::_win32_info_size', 'BMP_WIN32_INFO_SIZE', True),
+    ('L.pal', r'for\( int i = 0; i < entries; \+\+i \)', 'for( int i = 0; i < entries; ++i )\nPAL_LOOP_CONTRACT', True),
+]
+X_RLE = [X('sl_read_palette', BMS, r'void read_palette\(\)', count=1, rules=R_SLPAL),
+         X('rle', BMP, r'void read_palette_image_rle\( const View_Dst& view \)', count=1, rules=R_RLE),
          X('copy_row', BMP, r'void copy_row_if_needed\( const Buffer&  buf\s*, const View&    view\s*, std::ptrdiff_t y\s*\)', count=1, rules=R_COPY),
          X('read_palette', BMB, r'void read_palette\(\)', count=1, rules=R_PAL)]
 RLE_C = r'''
@@ -98,6 +108,15 @@ __CPROVER_ensures(g_pal_n >= ((ptrdiff_t)1 << self->_info._bits_per_pixel))     
 __CPROVER_ensures(g_remaining <= __CPROVER_old(g_remaining))
 @@read_palette@@
 
+/* scanline_reader<Device, bmp_tag>::read_palette: its own copy of the palette reader (returns at once when the palette has been read) */
+void sl_read_palette(rdr_t* self)
+__CPROVER_requires(__CPROVER_is_fresh(self, sizeof(*self)))
+__CPROVER_requires(self->_info._bits_per_pixel == 1 || self->_info._bits_per_pixel == 4 || self->_info._bits_per_pixel == 8)
+__CPROVER_requires(g_remaining <= ((size_t)1 << 40) && g_pal_n == 0)                        /* first call: the palette is still empty */
+__CPROVER_assigns(g_remaining, g_pal_n)
+__CPROVER_ensures(g_pal_n >= ((ptrdiff_t)1 << self->_info._bits_per_pixel))     /* every index the pixel data can encode addresses a palette entry */
+@@sl_read_palette@@
+
 void copy_row_if_needed(rdr_t* self, ptrdiff_t y)
 __CPROVER_requires(__CPROVER_is_fresh(self, sizeof(*self)))
 __CPROVER_requires(WINDOW_OK(self))
@@ -125,6 +144,7 @@ __CPROVER_ensures(g_buf_n >= 0 && g_pal_n >= ((ptrdiff_t)1 << self->_info._bits_
 @@rle@@
 #ifndef VERIF_NATIVE
 void h_read_palette(void){ rdr_t* s; size_t n; g_remaining = n; read_palette(s); __CPROVER_assert(0, "VACUITY"); }
+void h_sl_read_palette(void){ rdr_t* s; size_t n; g_remaining = n; g_pal_n = 0; sl_read_palette(s); __CPROVER_assert(0, "VACUITY"); }
 void h_copy_row(void){ rdr_t* s; ptrdiff_t y, vw, vh, bn; g_view_w = vw; g_view_h = vh; g_buf_n = bn; copy_row_if_needed(s, y); __CPROVER_assert(0, "VACUITY"); }
 void h_rle(void){ rdr_t* s; size_t n; ptrdiff_t vw, vh; g_remaining = n; g_view_w = vw; g_view_h = vh; read_palette_image_rle(s); __CPROVER_assert(0, "VACUITY"); }
 #endif
@@ -166,6 +186,7 @@ void h_istream_read(void){ int n; g_called = 0; istream_device_read(n); __CPROVE
 UNITS = [
     Unit('bmp_rle', 'C11', RLE_C, extracts=X_RLE, probe_includes=['boost/gil.hpp', 'boost/gil/extension/io/bmp.hpp'], probe=RLE_PROBE, insts=[('rle', 'quick', {})],
          checks=[Check('read_palette', 'h_read_palette', enforce='read_palette', loops=True, timeout=900),
+                 Check('scanline_read_palette', 'h_sl_read_palette', enforce='sl_read_palette', loops=True, timeout=900),
                  Check('copy_row', 'h_copy_row', enforce='copy_row_if_needed', timeout=600),
                  Check('rle', 'h_rle', enforce='read_palette_image_rle', replace=['read_palette', 'copy_row_if_needed'], loops=True, timeout=1800)],
          preconditions=['the requested window lies inside the image (0 <= top_left, top_left + dim <= file dimensions) and the destination view is at least dim: '
@@ -224,6 +245,11 @@ static void feed(std::string const& bytes, int w, int h, int tx, int ty, int dw,
   alarm(0);
   for (int y = 0; y < frame.height(); y++) for (int x = 0; x < frame.width(); x++) { bool inside = x >= F && x < F + dw && y >= F && y < F + dh;
     if (!inside && view(frame)(x, y) != canary) { fail("the reader wrote a pixel outside the destination view"); return; } } }
+// the same bytes through the scanline reader (it has its own palette reader and row decoders)
+static void feed_scanline(std::string const& bytes, const char* tag) { g_cases++; g_case = std::string(tag) + " (scanline reader) " + g_desc; std::istringstream in(bytes, std::ios::binary);
+  alarm(120); try { using D = detail::istream_device<bmp_tag>; D dev(in); scanline_reader<D, bmp_tag> r(dev, image_read_settings<bmp_tag>());
+    if (r._info._width > 0 && r._info._width < 64 && r._info._compression == 0) { std::vector<byte_t> row(r._scanline_length + 4096); for (int y = 0; y < r._info._height && y < 4; y++) r.read(row.data(), y); } } catch (std::exception const&) {}
+  alarm(0); }
 static void window(bool thorough) {
   // command alphabets
   std::vector<std::string> cmd8, cmd4;
@@ -254,6 +280,7 @@ static void window(bool thorough) {
   for (int bpp : {1, 4, 8}) for (unsigned ncol : {0u, 1u, 2u, 16u}) for (int v : {0, 1, 0x1F, 0x80, 0xC8, 0xFF}) for (int w : {1, 4, 9}) {
     unsigned pitch = ((((unsigned)w * bpp + 7) / 8) + 3) & ~3u; unsigned pal = ncol ? ncol : (1u << bpp);
     feed(bmpfile(w, 2, bpp, 0, ncol, pal, std::string(pitch * 2, (char)v)), w, 2, 0, 0, w, 2, true, "palette");
+    feed_scanline(bmpfile(w, 2, bpp, 0, ncol, pal, std::string(pitch * 2, (char)v)), "palette");
     feed(bmpfile(w, 2, bpp, 0, ncol, pal / 2, std::string(pitch, (char)v)), w, 2, 0, 0, w, 2, true, "palette-truncated"); } }
 '''
 RLE_NATIVE = RLE_WINDOW + r'''
@@ -265,7 +292,7 @@ int main(int argc, char** argv){ vr::parse(argc, argv); __sanitizer_set_death_ca
 '''
 RLE_REPLAY = RLE_WINDOW + r'''
 int main(int argc, char** argv){ vr::parse(argc, argv); __sanitizer_set_death_callback(on_death); signal(SIGALRM, on_alarm); signal(SIGABRT, on_abort);
-  window(true);
+  window(false);
   if (g_fail) REPRODUCED("%s", g_first.c_str());
   NOT_REPRODUCED("no crafted RLE / palette BMP of the search window (%ld files) misbehaves", g_cases); }
 '''
